@@ -4,7 +4,7 @@
   against MiApi (API-level contract) and MiOs (OS-level model).  One trace line = one action.
   Acceptance = every line consumed (POSTCONDITION) and no guard failed.
  ***************************************************************************)
-EXTENDS MiApi, MiOs, Json, IOUtils
+EXTENDS MiSecure, MiOs, Json, IOUtils
 
 Tr == ndJsonDeserialize(IOEnv.TRACE)
 
@@ -51,6 +51,7 @@ TraceNext ==
                             /\ OsReset
        [] ev.e = "round" -> Round(ev) /\ OsSkip
        [] ev.e = "refill" -> Refill(ev) /\ OsSkip
+       [] ev.e = "misuse" -> Misuse(ev) /\ OsSkip
        [] ev.e = "batch" -> BatchAlloc(ev) /\ OsBatch(ev.blocks, ev.wr)
        [] ev.e = "batch_free" -> BatchFree(ev) /\ OsSkip
        [] ev.e = "end" -> Consume /\ ApiSame /\ OsSkip
